@@ -229,6 +229,20 @@ def build_traces(path, tier, seed):
              "sd": enc_seq(o.s_d), "sv": enc_seq(o.s_v), "sa": enc_seq(o.s_a)},
             {"kind": "object", "n": n, "dt": dt, "xi": xi, "min_dt_ratio": 4, "T_over_dt": [p / dt for p in p2],
              "shape": shape + " (same object, another period list with the same ends asked for right after)"})
+    # one LARGE object job (npts x min_dt_ratio x periods above 2^23 response samples: implementations may work through the periods in
+    # blocks): a handful of its periods, short and long, validated against the step rule of the WHOLE list
+    if True:
+        n, nper = (2300, 1000) if tier == "quick" else (3200, 1200)
+        dt = 0.01
+        a, shape = gen.record(rng, n, shape="noise", amp=1.0)
+        plist = np.sort(np.concatenate([[0.05], rng.uniform(0.05, 6.0, size=nper - 1)]))
+        o = eqsig.AccSignal(np.array(a), dt, response_times=plist.copy())
+        o.gen_response_spectrum()
+        pick = sorted(set([0, nper - 1, int(nper * 0.6), int(nper * 0.9)]))
+        add({"kind": "object", "dt": enc(dt), "xi": enc(0.05), "a": enc_seq(a), "periods": enc_seq(plist[pick]), "tmin": enc(float(plist[0])), "raised": False, "q": 4,
+             "sd": enc_seq(np.asarray(o.s_d)[pick]), "sv": enc_seq(np.asarray(o.s_v)[pick]), "sa": enc_seq(np.asarray(o.s_a)[pick])},
+            {"kind": "object", "n": n, "dt": dt, "xi": 0.05, "min_dt_ratio": 4, "T_over_dt": [float(plist[k] / dt) for k in pick],
+             "shape": "large job: %d periods, rows %s validated" % (nper, pick)})
     # the two inputs named in known_findings.json (C03-input-energy-negative) are always exercised
     for (n, a0, a1, ratio, xi, dt) in [(10, 0.9, 0.3, 1.06, 0.05, 0.01), (14, 0.8, 0.2, 1.05, 0.3, 0.01), (205, 0.967, 0.678, 0.35, 0.554, 0.005)]:
         a = np.linspace(a0, a1, n)
